@@ -2,3 +2,4 @@ import Gomjml.Props.C02
 #print axioms Gomjml.Props.C02.C02_partial
 #print axioms Gomjml.Layout.C02_C03_tame
 #print axioms Gomjml.Layout.wf_spec
+#print axioms Gomjml.Props.C02.C02_all_bodies
